@@ -102,6 +102,43 @@ struct RefTable
 };
 
 static RefTable g_ref;
+
+//calls built on the transforms (padding / truncating overloads, FFT filter, correlation, spectral estimate): result of a call
+//inside a history vs the same call in a fresh thread; references are computed lazily, once per key
+struct Derived
+{
+    std::map<std::string, arr_cmplx> refc;
+    static arr_cmplx run(int kind, int a, int b) {
+        vh::Rng r(uint64_t(kind) * 1000003ULL + uint64_t(a) * 1009ULL + uint64_t(b));
+        switch (kind) {
+        case 0:   //fft(complex x[a], b): pad or truncate
+            return dl::fft(gauss_cmplx(r, a), b);
+        case 1:   //rfft(real x[a], b)
+            return dl::rfft(gauss_real(r, a), b);
+        case 2: {   //FftFilter(h[a]) on x[b]
+            dl::FftFilter f(gauss_real(r, a));
+            return dl::complex(f.process(gauss_real(r, b)));
+        }
+        case 3:   //xcorr
+            return dl::complex(dl::xcorr(gauss_real(r, a), gauss_real(r, b)));
+        case 4:   //welch(x[b], winlen a)
+            return dl::complex(dl::welch(gauss_real(r, b), a).pxx);
+        default:   //hilbert(x[a], b)
+            return dl::hilbert(gauss_real(r, a), b);
+        }
+    }
+    const arr_cmplx& reference(int kind, int a, int b) {
+        const std::string key = vh::fmt("%d/%d/%d", kind, a, b);
+        auto it = refc.find(key);
+        if (it == refc.end()) {
+            arr_cmplx out;
+            in_fresh_thread([&] { out = run(kind, a, b); });
+            it = refc.emplace(key, out).first;
+        }
+        return it->second;
+    }
+};
+static Derived g_derived;
 static int g_cap = 4;
 static const char* g_capname = "K4";
 
@@ -325,6 +362,7 @@ static void random_history(int nreq, vh::Rng& r, int id) {
     }
     HistoryMon mon;
     uint64_t held_checks = 0;
+    uint64_t derived_checks = 0;
     in_fresh_thread([&] {
         vf::cache_trace().clear();
         struct Held
@@ -360,9 +398,38 @@ static void random_history(int nreq, vh::Rng& r, int id) {
                 mon.fail(vh::fmt("C10/held_plan/%s", kn[h.kind]), ctx + vh::fmt(": a long-lived plan of length %d no longer gives the result it gave when it was obtained", h.n));
             }
         };
+        const std::string ctx_base = vh::fmt("random history %d (capacity %d)", id, g_cap);
         for (int i = 0; i < nreq && mon.ok; ++i) {
             const int n = lens[r.below(lens.size())];
-            const int op = int(r.below(8));
+            int op = int(r.below(8));
+            if (r.below(4) == 0) {
+                //a call built on the transforms; input lengths from a small set so that the same target length is reached
+                //from longer and shorter inputs in every order
+                const int kind = int(r.below(6));
+                int a, b;
+                if (kind == 0 || kind == 1 || kind == 5) {
+                    b = int(r.pick(std::vector<int>{16, 60, 64, 45}));
+                    a = int(r.pick(std::vector<int>{5, 12, 40, 70, b, b + 1, 2 * b}));
+                } else if (kind == 2) {
+                    a = int(r.pick(std::vector<int>{9, 16, 33}));
+                    b = int(r.pick(std::vector<int>{100, 257}));
+                } else if (kind == 3) {
+                    a = int(r.pick(std::vector<int>{7, 20, 50}));
+                    b = int(r.pick(std::vector<int>{7, 31, 64}));
+                } else {
+                    a = int(r.pick(std::vector<int>{16, 24, 50}));
+                    b = int(r.pick(std::vector<int>{200, 333}));
+                }
+                const arr_cmplx& want = g_derived.reference(kind, a, b);
+                const arr_cmplx got = Derived::run(kind, a, b);
+                const char* kn[6] = {"fft(x,n)", "rfft(x,n)", "FftFilter", "xcorr", "welch", "hilbert(x,n)"};
+                ++derived_checks;
+                if (!close_c(got, want)) {
+                    mon.fail(vh::fmt("C10/result/derived/%s", kn[kind]), ctx_base + vh::fmt(", request %d: %s with sizes (%d,%d) differs from the same call in a fresh thread", i, kn[kind], a, b));
+                }
+                mon.after_request(0, 8, ctx_base);
+                continue;
+            }
             const std::string ctx = vh::fmt("random history %d, request %d (capacity %d)", id, i, g_cap);
             int cache = 0;
             switch (op) {
@@ -448,6 +515,7 @@ static void random_history(int nreq, vh::Rng& r, int id) {
     vh::count(hh.get(), true);
     vh::obs_add("random_history_requests", nreq);
     vh::obs_add("held_plan_checks", double(held_checks));
+    vh::obs_add("derived_call_checks", double(derived_checks));
     if (!mon.ok) {
         vh::violation(mon.errkey, mon.err);
     }
